@@ -91,6 +91,9 @@ if ((X)->in_current_read_offset < (X)->in_current_len) { \
 static htp_status_t htp_connp_req_receiver_send_data(htp_connp_t *connp, int is_last) {
     if (connp->in_data_receiver_hook == NULL) return HTP_OK;
 
+    // Without a transaction there is nothing the data could belong to.
+    if (connp->in_tx == NULL) return HTP_OK;
+
     htp_tx_data_t d;
     d.tx = connp->in_tx;
     d.data = connp->in_current_data + connp->in_current_receiver_offset;
